@@ -29,8 +29,8 @@ func (d *byteDom) empty() bool    { return d[0]|d[1]|d[2]|d[3] == 0 }
 // and that variable is 8 bits wide.
 func (i *interpreter) singleVar(t *smt.Term) *smt.Term {
 	if v, ok := i.varMemo[t.ID]; ok {
-		if v == manyVars {
-			return nil
+		if v == manyVars || v == nil || v.Sort != 8 {
+			return nil // (the memo records the variable whatever its width; only bytes have a domain)
 		}
 		return v
 	}
